@@ -13,6 +13,11 @@ def run(ctx):
     ctx.extra["explanation"] = ("Deductive (real arithmetic): the convolution / prefix-sum / node-update functions equal their recursive specification for any number of samples, "
                                 "grid points and children. Bounded: literal enumeration of all index assignments on every forest over <=4 clones, incl. identical siblings, rows on "
                                 "very different scales, wide dynamic range; FFT-vs-direct at 1000 grid points.")
+    if ctx.tier == "thorough":
+        from vcheck import lean as L
+
+        for f_ in ("MGeom.lean",):
+            L.check_file(ctx, f_, "C02")
     from bounded import likelihood as BL
 
     r = BL.run(ctx.tier, ctx.seed)
